@@ -106,7 +106,10 @@ Project(t, asg, grp, dev) ==
 \* ---------------------------------------------------------------- windowed extend
 \* asg = << <<target, fn, srccol-or-"", n>>, ... >>; partition_by part (<<>> = whole table),
 \* order_by ord, reversed columns rev.  Keeps every row (C09); value over the row's ordered partition.
-OrderedFns   == {"cumsum", "cummax", "cummin", "shift", "_row_number"}
+OrderedFns   == {"cumsum", "cummax", "cummin", "shift", "_row_number", "cumprod", "first", "last", "ffill", "bfill"}
+\* window functions the method catalogue claims for the Pandas executor only (SQL: 'n')
+PandasOnlyFns == {"cumprod", "first", "last", "ffill", "bfill"}
+ProdSeq(q) == FoldLeft(LAMBDA a, v : a * v, 1, q)
 UnorderedFns == {"sum", "max", "min", "count", "size", "_size", "mean", "nunique"}
 \* tags of ill-formed aggregate expressions (C26): "nonagg" = `c + 1` (no aggregation),
 \* "complex" = `c.sum() + 1` / `c.cumsum() + 1` (arithmetic on an aggregate), "argexpr" = `(c + 1).sum()`
@@ -130,6 +133,13 @@ WinVal(rows, i, a, part, ord, rev, dev) ==
      ELSE CASE fn = "cumsum" -> IF hole \/ Len(upto) = 0 THEN NULL ELSE SumSeq(upto)
             [] fn = "cummax" -> IF hole THEN NULL ELSE MaxOfSeq(upto)
             [] fn = "cummin" -> IF hole THEN NULL ELSE MinOfSeq(upto)
+            [] fn = "cumprod" -> IF hole \/ Len(upto) = 0 THEN NULL ELSE ProdSeq(upto)
+            \* first / last non-missing value of the ordered partition; forward / backward fill along the order
+            [] fn = "first"  -> LET nn == NonNull(all) IN IF Len(nn) = 0 THEN NULL ELSE nn[1]
+            [] fn = "last"   -> LET nn == NonNull(all) IN IF Len(nn) = 0 THEN NULL ELSE nn[Len(nn)]
+            [] fn = "ffill"  -> IF Len(upto) = 0 THEN NULL ELSE upto[Len(upto)]
+            [] fn = "bfill"  -> LET rest == NonNull([p \in 1..(Len(sorted) - pos + 1) |-> val(pos + p - 1)]) IN
+                                IF Len(rest) = 0 THEN NULL ELSE rest[1]
             [] fn = "shift"  -> IF pos - n >= 1 /\ pos - n <= Len(sorted) THEN val(pos - n) ELSE NULL
             [] fn = "_row_number" -> pos
             [] OTHER -> AggValD(fn, all, dev)
